@@ -654,7 +654,7 @@ func (c *Client) Start() (addr net.Addr, err error) {
 		cmd = exec.Command("")
 	}
 	if !c.config.SkipHostEnv {
-		cmd.Env = append(cmd.Env, os.Environ()...)
+		cmd.Env = append(cmd.Env, hostEnv()...)
 	}
 	cmd.Env = append(cmd.Env, env...)
 	cmd.Stdin = os.Stdin
@@ -947,6 +947,22 @@ func (c *Client) Start() (addr net.Addr, err error) {
 
 	c.address = addr
 	return
+}
+
+// hostEnv returns the host's environment without the variables of go-plugin's
+// own handshake. A host that is itself a plugin carries the client
+// certificate and the multiplexing flag of its own launch; a plugin started
+// from here must only see the ones this client sets, if any.
+func hostEnv() []string {
+	env := os.Environ()
+	out := make([]string, 0, len(env))
+	for _, kv := range env {
+		if strings.HasPrefix(kv, "PLUGIN_CLIENT_CERT=") || strings.HasPrefix(kv, envMultiplexGRPC+"=") {
+			continue
+		}
+		out = append(out, kv)
+	}
+	return out
 }
 
 // loadServerCert is used by AutoMTLS to read an x.509 cert returned by the
